@@ -23,6 +23,7 @@ static mut CONT_SENT: bool = false;
 static mut GENERATE_ENTERED: bool = false;
 static mut REFS: bool = false;
 static mut FIND_SOME: bool = false;
+static mut NEW_OK: bool = false;
 
 fn stub_new(pid: Pid, _t: Duration, auxv: AuxvDumpInfo, _e: impl WriteErrorList<InitError>) -> std::result::Result<PtraceDumper, InitError> {
     if kani::any() { return Err(InitError::CannotPtraceSameProcess); }
@@ -31,6 +32,7 @@ fn stub_new(pid: Pid, _t: Duration, auxv: AuxvDumpInfo, _e: impl WriteErrorList<
     let mut d = crate::linux::ptrace_dumper::__verif_ptrace_dumper::bare_dumper(threads, Vec::new());
     d.pid = pid;
     d.auxv = auxv;
+    unsafe { NEW_OK = true; }
     Ok(d)
 }
 
@@ -106,6 +108,11 @@ fn check_after_dump() {
         }
         if SUSPENDED {
             assert!(CONT_SENT, "every return path of dump() lets the process continue");       // [C03]
+        }
+        if NEW_OK {
+            // between a successful init and generate_dump nothing is fatal: losing every thread at attach time,
+            // or a principal mapping that nobody references, are soft errors
+            assert!(GENERATE_ENTERED, "attach failures and an unreferenced principal mapping never make the dump fail");   // [C11] [C20]
         }
     }
 }
